@@ -11,6 +11,7 @@ CONSTANTS
   MaxR = 0
   HeightSet <- HeightsM
   Direct = 0
+  Probes <- ProbesM
   Pinned <- PinnedM
   EmitRate = 1
   FocusRate = 0
@@ -18,5 +19,5 @@ INIT SInit
 NEXT SNext
 VIEW View
 CHECK_DEADLOCK FALSE
-INVARIANTS TypeOK
+INVARIANTS TypeOK C09design
 PROPERTIES PC01 PC02 PC03 PC04 PC05 PC06 PC07 PC08 PC11 PC12 PC13 PC15 PC16
